@@ -142,6 +142,33 @@ defprog! {
    }
 }
 
+// a lattice computed in one stratum and read by a later, recursive stratum only through
+// non-key indices (first key column bound / second key column bound / no column bound)
+defprog! {
+   name: lattice_then_walk;
+   timeouts: yes;
+   positive: true;
+   tags: ["c02", "c05", "c13", "c14", "c20", "graph", "lattice"];
+   rels: {
+      relation edge(u32, u32, u32) [input];
+      relation start(u32) [input];
+      lattice sp(u32, u32, Dual<u32>) [];
+      relation hop(u32) [];
+      relation back(u32) [];
+      relation any_short(u32, u32) [];
+   }
+   gens: [("chain", gens::chain), ("random", gens::random), ("diamond", gens::diamond), ("dense", gens::dense)];
+   rules: {
+      sp(x, y, Dual(*w)) <-- edge(x, y, w);
+      sp(x, z, Dual(w + l.0)) <-- edge(x, y, w), sp(y, z, ?l), if w + l.0 < 40;
+      hop(x) <-- start(x);
+      hop(y) <-- hop(x), sp(x, y, d), if d.0 <= 6;
+      back(x) <-- hop(y), sp(x, y, d), if d.0 <= 4;
+      hop(x) <-- back(x), start(_);
+      any_short(x, y) <-- sp(x, y, d), hop(x), if d.0 <= 2;
+   }
+}
+
 pub fn all() -> Vec<ProgramDef> {
-   vec![shortest_path::def(), longest_bounded::def(), const_prop::def(), reach_sets::def(), lat_noindex::def(), write_only_heads::def()]
+   vec![shortest_path::def(), longest_bounded::def(), const_prop::def(), reach_sets::def(), lat_noindex::def(), write_only_heads::def(), lattice_then_walk::def()]
 }
